@@ -12,6 +12,7 @@ package c08
 import (
 	"context"
 	"fmt"
+	"math/big"
 	"runtime"
 	"sync"
 
@@ -72,6 +73,9 @@ type kase struct {
 	w    *worker
 	c    *vh.Case
 	cids []int
+	// dueBig, when set, is the amount due of the next attempt as an unbounded integer (deposit
+	// vectors whose sum does not fit 128 bits)
+	dueBig *big.Int
 }
 
 func (w *worker) begin(name string, cids ...int) *kase {
@@ -130,6 +134,7 @@ func (k *kase) attempt(rpc, variant string, cid int, mayCommit bool, due types.C
 		}
 	}
 	if persisted == nil {
+		k.dueBig = nil
 		if mayCommit && res.Cls != "ok" && res.Cls != "dropped" {
 			k.c.Oracle("good-request-refused:"+class, "%s (%s) is a request the host must accept but it answered %s", rpc, variant, res.Cls)
 		}
@@ -147,17 +152,37 @@ func (k *kase) attempt(rpc, variant string, cid int, mayCommit bool, due types.C
 	if !mayCommit {
 		k.c.Oracle("bad-request-committed:"+class, "%s with %s was committed (revision %d -> %d)", rpc, variant, before.Revision.RevisionNumber, persisted.Revision.RevisionNumber)
 	}
+	if !before.Revisable {
+		k.c.Oracle("persisted-for-non-revisable-contract:"+rpc, "%s persisted revision %d of a contract that is not revisable (renewed=%v, proof height %d, tip %d)", rpc,
+			persisted.Revision.RevisionNumber, before.Renewed, before.Revision.ProofHeight, k.w.rig.CM.Tip().Height)
+	}
 	old, rev := before.Revision, persisted.Revision
+	if persisted.Kind != "revise" {
+		// what was credited, in unbounded integers, is exactly what the renter's payout lost
+		sum := new(big.Int)
+		for _, d := range persisted.Deposits {
+			sum.Add(sum, d.Amount.Big())
+		}
+		paid := new(big.Int).Sub(old.RenterOutput.Value.Big(), rev.RenterOutput.Value.Big())
+		if sum.Cmp(paid) != 0 {
+			k.c.Oracle("credited-not-paid:"+rpc, "%s credited %v in total but the renter payout fell by %v", rpc, sum, paid)
+		}
+	}
 	if after.Revision != rev {
 		k.c.Oracle("stored-is-not-persisted:"+rpc, "the stored revision differs from the one handed to the contractor")
 	}
-	k.relations(class, old, rev, due)
+	dueBig := due.Big()
+	if k.dueBig != nil {
+		dueBig = k.dueBig
+	}
+	k.dueBig = nil
+	k.relations(class, old, rev, dueBig)
 	k.consensusOK(class, cid)
 	return res
 }
 
 // relations checks the property's per-revision clauses between the revision before and after.
-func (k *kase) relations(class string, old, rev types.V2FileContract, due types.Currency) {
+func (k *kase) relations(class string, old, rev types.V2FileContract, due *big.Int) {
 	fail := func(what, f string, a ...any) { k.c.Oracle(what+":"+class, f, a...) }
 	if rev.RevisionNumber <= old.RevisionNumber {
 		fail("revision-number-not-higher", "revision number %d -> %d", old.RevisionNumber, rev.RevisionNumber)
@@ -179,8 +204,8 @@ func (k *kase) relations(class string, old, rev types.V2FileContract, due types.
 	}
 	if rev.HostOutput.Value.Cmp(old.HostOutput.Value) < 0 {
 		fail("value-moved-to-renter", "host payout fell %v -> %v", old.HostOutput.Value.ExactString(), rev.HostOutput.Value.ExactString())
-	} else if !rev.HostOutput.Value.Sub(old.HostOutput.Value).Equals(due) {
-		fail("amount-due-not-exact", "renter paid %v, amount due %v", rev.HostOutput.Value.Sub(old.HostOutput.Value).ExactString(), due.ExactString())
+	} else if rev.HostOutput.Value.Sub(old.HostOutput.Value).Big().Cmp(due) != 0 {
+		fail("amount-due-not-exact", "renter paid %v, amount due %v", rev.HostOutput.Value.Sub(old.HostOutput.Value).ExactString(), due)
 	}
 	if rev.MissedHostValue.Cmp(old.MissedHostValue) > 0 {
 		fail("missed-host-value-rose", "missed host value rose")
@@ -540,8 +565,71 @@ func params(idx int) func(w *worker) {
 			k.attempt("roots", "unknown-contract", 9, false, cur(0), func() rhpx.Result {
 				return w.s.Roots(rhpx.RootsArgs{Cid: 9, Prices: ps, Offset: 0, Len: 1, Sig: rhpx.Honest})
 			})
+			k.attempt("append", "unknown-contract", 9, false, cur(0), func() rhpx.Result {
+				return w.s.Append(rhpx.AppendArgs{Cid: 9, Prices: ps, Chal: rhpx.Honest, Sectors: []int{1}, Second: rhpx.Honest})
+			})
+			for _, pool := range []bool{false, true} {
+				pool := pool
+				accts := []int{acctA}
+				if pool {
+					accts = []int{poolP}
+				}
+				k.attempt("replenish", "unknown-contract", 9, false, cur(0), func() rhpx.Result {
+					return w.s.Replenish(rhpx.ReplArgs{Pool: pool, Cid: 9, Accounts: accts, Target: types.Siacoins(1), Chal: rhpx.Honest, Second: rhpx.Honest})
+				})
+			}
 			r, _ := w.s.Latest(9)
 			k.c.Op(r.Op, r.Impl)
+		case 6: // deposit vectors whose sum does not fit 128 bits, and amounts next to 2^128
+			two127 := types.NewCurrency(0, 1<<63)
+			maxC := types.NewCurrency(^uint64(0), ^uint64(0))
+			pays := func(wrapped types.Currency) rhpx.SigSpec {
+				// the renter signs the revision that pays the total as a 128-bit adder would compute it
+				return rhpx.SigSpec{Kind: "b", Key: rhpx.RenterKeyID, Mut: func(fc *types.V2FileContract) {
+					fc.RevisionNumber++
+					fc.RenterOutput.Value = fc.RenterOutput.Value.Sub(wrapped)
+					fc.HostOutput.Value = fc.HostOutput.Value.Add(wrapped)
+				}}
+			}
+			fundBig := func(name string, ds []rhpx.Deposit, sig rhpx.SigSpec) {
+				sum := new(big.Int)
+				for _, d := range ds {
+					sum.Add(sum, d.Amount.Big())
+				}
+				k.dueBig = sum
+				k.attempt("fund", name, cid, false, cur(0), func() rhpx.Result {
+					return w.s.Fund(rhpx.FundArgs{Cid: cid, Deposits: ds, Sig: sig, CurIDs: w.cur})
+				})
+				k.observe()
+			}
+			fundBig("sum-wraps-to-one", []rhpx.Deposit{{Account: acctA, Amount: two127}, {Account: acctB, Amount: two127.Add(cur(1))}}, pays(cur(1)))
+			fundBig("sum-wraps-to-zero", []rhpx.Deposit{{Account: acctA, Amount: two127}, {Account: acctB, Amount: two127}}, pays(cur(0)))
+			fundBig("sum-wraps-same-account", []rhpx.Deposit{{Account: acctA, Amount: maxC}, {Account: acctA, Amount: cur(8)}}, pays(cur(7)))
+			fundBig("three-deposits-wrap", []rhpx.Deposit{{Account: acctA, Amount: two127}, {Account: acctB, Amount: cur(5)}, {Account: acctA, Amount: two127}}, pays(cur(5)))
+			fundBig("sum-wraps-honest-signature", []rhpx.Deposit{{Account: acctA, Amount: two127}, {Account: acctB, Amount: two127.Add(cur(1))}}, rhpx.Honest)
+			fundBig("largest-amount", []rhpx.Deposit{{Account: acctA, Amount: maxC}}, rhpx.Honest)
+			fundBig("largest-total", []rhpx.Deposit{{Account: acctA, Amount: maxC.Sub(cur(1))}, {Account: acctB, Amount: cur(1)}}, rhpx.Honest)
+			// replenish: targets whose deposits overflow / come close
+			for _, pool := range []bool{false, true} {
+				pool := pool
+				accts := []int{acctA, acctB, acctA + 2}
+				if pool {
+					accts = []int{poolP, poolP + 1, poolP + 2}
+				}
+				for _, t := range []struct {
+					name   string
+					target types.Currency
+					n      int
+				}{{"target-2^127-three-accounts", two127, 3}, {"target-max-two-accounts", maxC, 2}, {"target-max-one-account", maxC, 1}} {
+					t := t
+					k.attempt("replenish", t.name, cid, false, cur(0), func() rhpx.Result {
+						return w.s.Replenish(rhpx.ReplArgs{Pool: pool, Cid: cid, Accounts: accts[:t.n], Target: t.target, Chal: rhpx.Honest, Second: rhpx.Honest, CurIDs: w.cur})
+					})
+					k.observe()
+				}
+			}
+			// and the contract still works
+			k.run("fund", variants()[0], false)
 		case 5: // latest revision: what the host reports is what it stores, doubly signed
 			r, resp := w.s.Latest(cid)
 			k.c.Op(r.Op, r.Impl)
@@ -609,7 +697,7 @@ func renewal(idx int) func(w *worker) {
 			ContractID:  w.s.CID(old),
 			Allowance:   types.Siacoins(100000),
 			Collateral:  types.Siacoins(200000),
-			ProofHeight: st.Revision.ProofHeight + 10,
+			ProofHeight: st.Revision.ProofHeight + 2,
 		})
 		w.rig.T.WaitIdle()
 		calls := w.rig.Rec.Take()
@@ -652,7 +740,7 @@ func renewal(idx int) func(w *worker) {
 		tl, ti := w.s.TipLine()
 		k.c.Op(tl, ti)
 		// every revising RPC on the old contract must now be refused and change nothing
-		for _, rpc := range []string{"free", "append", "roots", "fund", "replA"} {
+		for _, rpc := range []string{"free", "append", "roots", "fund", "replA", "replP"} {
 			v := variants()[0]
 			v.commit = false
 			k.run(rpc, v, false)
@@ -671,6 +759,87 @@ func renewal(idx int) func(w *worker) {
 	}
 }
 
+
+// badInputSigner signs contracts and renewals correctly but corrupts the signatures that spend the
+// siacoin inputs it contributes: everything the host checks itself is in order, the finished
+// transaction is not.
+type badInputSigner struct{ *rhpx.FundSigner }
+
+func (b *badInputSigner) SignV2Inputs(txn *types.V2Transaction, toSign []int) {
+	b.FundSigner.SignV2Inputs(txn, toSign)
+	for _, i := range toSign {
+		for j := range txn.SiacoinInputs[i].SatisfiedPolicy.Signatures {
+			txn.SiacoinInputs[i].SatisfiedPolicy.Signatures[j][0] ^= 0x01
+		}
+	}
+}
+
+// failedRenew: a renew / refresh whose final transaction is invalid must be rejected and leave the
+// old contract exactly as it was (still revisable, same revision, no renewal recorded); honest
+// operations on it afterwards work.
+func failedRenew(idx int, kind string) func(w *worker) {
+	return func(w *worker) {
+		w.ensure(2)
+		old := w.cid
+		newc := old + 1
+		w.s.AddContract(newc, types.FileContractID(w.s.CID(old)).V2RenewalID())
+		k := w.begin(fmt.Sprintf("failed-%s%d", kind, idx), old, newc)
+		k.run("fund", variants()[0], false)
+		k.observe()
+		ctx := context.Background()
+		settings, err := rhp4.RPCSettings(ctx, w.rig.T)
+		if err != nil {
+			k.c.Oracle("harness-setup", "settings: %v", err)
+			k.done(false)
+			return
+		}
+		before := k.state(old)
+		w.rig.Rec.Take()
+		fs := &badInputSigner{&rhpx.FundSigner{W: w.rig.W, PK: rhpx.Key(rhpx.RenterKeyID)}}
+		switch kind {
+		case "renew":
+			_, err = rhp4.RPCRenewContract(ctx, w.rig.T, w.rig.CM, fs, w.rig.CM.TipState(), settings.Prices, settings.WalletAddress, before.Revision, proto4.RPCRenewContractParams{
+				ContractID: w.s.CID(old), Allowance: types.Siacoins(100000), Collateral: types.Siacoins(200000), ProofHeight: before.Revision.ProofHeight + 2})
+		case "refresh-full":
+			_, err = rhp4.RPCRefreshContractFullRollover(ctx, w.rig.T, w.rig.CM, fs, w.rig.CM.TipState(), settings.Prices, settings.WalletAddress, before.Revision, proto4.RPCRefreshContractParams{
+				ContractID: w.s.CID(old), Allowance: types.Siacoins(1000), Collateral: types.Siacoins(2000)})
+		case "refresh-partial":
+			_, err = rhp4.RPCRefreshContractPartialRollover(ctx, w.rig.T, w.rig.CM, fs, w.rig.CM.TipState(), settings.Prices, settings.WalletAddress, before.Revision, proto4.RPCRefreshContractParams{
+				ContractID: w.s.CID(old), Allowance: types.Siacoins(1000), Collateral: types.Siacoins(2000)})
+		}
+		w.rig.T.WaitIdle()
+		calls := w.rig.Rec.Take()
+		if err == nil {
+			k.c.Oracle("invalid-renewal-accepted:"+kind, "a %s whose transaction carries corrupted input signatures was accepted", kind)
+		}
+		for _, c := range calls {
+			if c.Kind == "renew" && c.Err == nil {
+				k.c.Oracle("failed-renew-recorded:"+kind, "the %s was rejected (%v) but the contractor recorded a renewal", kind, err)
+			}
+		}
+		after := k.state(old)
+		if after.Revision != before.Revision || after.Renewed || !after.Revisable {
+			k.c.Oracle("failed-renew-changed-contract:"+kind, "after the rejected %s the old contract is revisable=%v renewed=%v, revision %d -> %d", kind, after.Revisable, after.Renewed,
+				before.Revision.RevisionNumber, after.Revision.RevisionNumber)
+		}
+		if _, err := w.rig.HostState(w.s.CID(newc)); err == nil {
+			k.c.Oracle("failed-renew-left-contract:"+kind, "after the rejected %s the host holds a renewal contract that can never be confirmed", kind)
+		}
+		k.observe()
+		// the next exchange: latest revision and honest revisions of the old contract
+		r, resp := w.s.Latest(old)
+		k.c.Op(r.Op, r.Impl)
+		if r.Cls == "ok" && (resp.Renewed || !resp.Revisable) {
+			k.c.Oracle("failed-renew-changed-contract:"+kind, "RPCLatestRevision after the rejected %s: revisable=%v renewed=%v", kind, resp.Revisable, resp.Renewed)
+		}
+		for _, rpc := range []string{"fund", "replP", "roots"} {
+			k.run(rpc, variants()[0], false)
+			k.observe()
+		}
+		k.done(true, "kind:failed-"+kind)
+	}
+}
+
 // expired: past the proof height nothing is revisable.
 func expired() func(w *worker) {
 	return func(w *worker) {
@@ -678,7 +847,7 @@ func expired() func(w *worker) {
 		if err != nil {
 			return
 		}
-		short := 50
+		short := 9000
 		w.s.AddContract(short, c.ID)
 		saved, savedCur := w.cid, w.cur
 		w.cid, w.cur = short, nil
@@ -690,7 +859,7 @@ func expired() func(w *worker) {
 		w.rig.Mine(22)
 		tl, ti = w.s.TipLine()
 		k.c.Op(tl, ti)
-		for _, rpc := range []string{"free", "append", "roots", "fund", "replA"} {
+		for _, rpc := range []string{"free", "append", "roots", "fund", "replA", "replP"} {
 			v := variants()[0]
 			v.commit = false
 			k.run(rpc, v, false)
@@ -745,7 +914,7 @@ func concurrent(idx int) func(w *worker) {
 					c.Oracle("concurrent-revision-number", "concurrent RPCs persisted revision %d after %d", rev.RevisionNumber, prev.RevisionNumber)
 				}
 				due := rev.HostOutput.Value.Sub(prev.HostOutput.Value)
-				k.relations("concurrent", prev, rev, due)
+				k.relations("concurrent", prev, rev, due.Big())
 				prev = rev
 			}
 		}
@@ -778,7 +947,7 @@ func Run(r *vh.Run) {
 			jobs = append(jobs, one(rpc, v))
 		}
 	}
-	for i := 0; i <= 5; i++ {
+	for i := 0; i <= 6; i++ {
 		jobs = append(jobs, params(i))
 	}
 	nh := r.Pick(3000, 40000)
@@ -789,6 +958,7 @@ func Run(r *vh.Run) {
 			jobs = append(jobs, concurrent(i))
 		}
 		if i%100 == 13 {
+			jobs = append(jobs, failedRenew(i, []string{"renew", "refresh-full", "refresh-partial"}[(i/100)%3]))
 			jobs = append(jobs, renewal(i))
 		}
 	}
@@ -827,6 +997,7 @@ func Run(r *vh.Run) {
 	}
 	r.Extra("workers", nw)
 	r.Extra("variants", len(variants()))
+	r.Extra("non_revisable_targets", "renewed, expired (tip >= proof height), never formed: free, append, roots, fund, replenish accounts, replenish pools")
 	r.Assume("price tables signed with the host key carry a TipHeight not above the chain tip")
 	r.Assume("concurrent issue on one contract is checked by the oracle only (the model is sequential; the contract lock serialises handlers)")
 }
